@@ -244,6 +244,7 @@ pub fn subs() -> Vec<Box<dyn DynSub>> {
         sub(Sub { name: "c09.first_calls", source: Source::Enum(first_calls_enum, |_| true), oracle: inst_oracle, known: no_known, hang_is_violation: false }),
         sub(Sub { name: "c09.all_days", source: Source::Enum(inst_enum, |_| true), oracle: inst_oracle, known: no_known, hang_is_violation: false }),
         sub(Sub { name: "c09.generated", source: Source::Gen(inst_strategy, 600_000, 10_000_000), oracle: inst_oracle, known: no_known, hang_is_violation: false }),
+        crate::props::chain::c09_chain(),
         crate::props::fuzzsub::fc09(),
     ]
 }
